@@ -9,23 +9,34 @@ import (
 )
 
 func createLockFile(name string, perm os.FileMode) (LockFile, bool, error) {
-	acquiredExisting := false
-	verifYield("lock.stat")
-	if _, err := os.Stat(name); err == nil {
-		acquiredExisting = true
-	}
-	verifYield("lock.open")
-	f, err := os.OpenFile(name, os.O_RDWR|os.O_CREATE, perm)
-	if err != nil {
-		return nil, false, err
-	}
-	verifYield("lock.flock")
-	if err := syscall.Flock(int(f.Fd()), syscall.LOCK_EX|syscall.LOCK_NB); err != nil {
-		if err == syscall.EWOULDBLOCK {
-			err = os.ErrExist
+	for {
+		acquiredExisting := false
+		verifYield("lock.stat")
+		if _, err := os.Stat(name); err == nil {
+			acquiredExisting = true
 		}
-		return nil, false, err
+		verifYield("lock.open")
+		f, err := os.OpenFile(name, os.O_RDWR|os.O_CREATE, perm)
+		if err != nil {
+			return nil, false, err
+		}
+		verifYield("lock.flock")
+		if err := syscall.Flock(int(f.Fd()), syscall.LOCK_EX|syscall.LOCK_NB); err != nil {
+			_ = f.Close()
+			if err == syscall.EWOULDBLOCK {
+				err = os.ErrExist
+			}
+			return nil, false, err
+		}
+		// The previous holder removes the lock file before it releases the lock. If that
+		// happened after the file was opened here, the lock is held on a file the path no
+		// longer names and the next process is free to create and lock a new one.
+		if locked, err := f.Stat(); err == nil {
+			if current, err := os.Stat(name); err == nil && os.SameFile(locked, current) {
+				verifYield("lock.acquired")
+				return &osLockFile{f, name}, acquiredExisting, nil
+			}
+		}
+		_ = f.Close()
 	}
-	verifYield("lock.acquired")
-	return &osLockFile{f, name}, acquiredExisting, nil
 }
